@@ -3,6 +3,7 @@ CONSTANTS Depth = 1
  N = 2
  Rich = FALSE
 INVARIANT ConservativeIfOK
+INVARIANT AllExaminable
 INVARIANT AddedWellTyped
 INVARIANT OnlyOKAdded
 POSTCONDITION Post
